@@ -4,7 +4,7 @@
 # (never to /repo itself), runs the quick check of its property against that worktree
 # (VERIF_REPO), and prints one line per seed: caught (exit 1 + VIOLATION), missed (exit 0),
 # no-check (property not claimed), stale (patch no longer applies) or broken (other exit).
-# Evidence files are restored afterwards: evidence must only ever describe /repo itself.
+# The evidence file of the property is restored from git after each run: evidence must only ever describe /repo itself.
 set -u
 cd /verif
 export GOFLAGS=-mod=mod GOPROXY=off GOSUMDB=off GOTOOLCHAIN=local
@@ -12,7 +12,6 @@ seeds=("$@")
 if [ ${#seeds[@]} = 0 ]; then seeds=($(ls seeded | grep -v '\.md$')); fi
 wt=/tmp/seedwt_$$
 mkdir -p out/seeded
-cp -r evidence /tmp/evidence_keep_$$
 for name in "${seeds[@]}"; do
   d=seeded/$name
   [ -f $d/patch.diff ] || continue
@@ -29,6 +28,7 @@ for name in "${seeds[@]}"; do
   fi
   s=$(date +%s)
   VERIF_REPO=$wt ./check $prop quick > out/seeded/$name.log 2>&1; rc=$?
+  git checkout -q -- evidence/$prop.json 2>/dev/null   # evidence must describe /repo itself, not the mutated copy
   e=$(date +%s)
   nv=$(grep -c '^VIOLATION' out/seeded/$name.log)
   first=$(grep '^VIOLATION' out/seeded/$name.log | head -1 | cut -c1-160)
@@ -40,4 +40,3 @@ for name in "${seeds[@]}"; do
   echo "$name $prop $st violations=$nv $((e-s))s $first"
   git -C /repo worktree remove --force $wt
 done
-rm -rf evidence; mv /tmp/evidence_keep_$$ evidence
